@@ -316,7 +316,25 @@ impl ToInternedString for LiteralKind {
     fn to_interned_string(&self, interner: &Interner) -> String {
         match *self {
             Self::String(st) => {
-                format!("\"{}\"", interner.resolve_expect(st))
+                // The printed literal must read back as the same string: quote, backslash, line
+                // terminators, control characters and lone surrogates are written as escapes.
+                let mut out = String::from("\"");
+                for unit in char::decode_utf16(interner.resolve_expect(st).utf16().iter().copied()) {
+                    match unit {
+                        Ok('"') => out.push_str("\\\""),
+                        Ok('\\') => out.push_str("\\\\"),
+                        Ok('\n') => out.push_str("\\n"),
+                        Ok('\r') => out.push_str("\\r"),
+                        Ok(c @ ('\u{2028}' | '\u{2029}')) => {
+                            out.push_str(&format!("\\u{:04X}", c as u32));
+                        }
+                        Ok(c) if (c as u32) < 0x20 => out.push_str(&format!("\\u{:04X}", c as u32)),
+                        Ok(c) => out.push(c),
+                        Err(e) => out.push_str(&format!("\\u{:04X}", e.unpaired_surrogate())),
+                    }
+                }
+                out.push('"');
+                out
             }
             Self::Num(num) => num.to_string(),
             Self::Int(num) => num.to_string(),
